@@ -344,6 +344,90 @@ def clef_split_doc(rng):
     return {'headers': hs, 'rows': rows, 'profile': 'clef-split'}
 
 
+def nested_split_doc(rng):
+    """**kern spines, signatures in the preamble (the same kinds in every spine); in one measure a spine splits and one of the two
+    branches ('first' / 'second'), both ('both') or none ('none') splits again; the sub-spines are re-joined before the next barline
+    in a random valid order (pairwise `*v *v` joins and n-way `*v *v *v` joins); later measures follow, one more plain split/join"""
+    cg = CellGen(rng, sig_weight=0.2)
+    hs = ['**kern'] * rng.choice([1, 1, 2])
+    rows = []
+    live = list(range(len(hs)))
+    nest = rng.choice(['first', 'second', 'first', 'second', 'both', 'none'])
+
+    def row(rk, fn):
+        rows.append({'kind': 'cells', 'rk': rk, 'cells': [fn(j, s) for j, s in enumerate(live)], 'live': list(live)})
+
+    def data(n=1):
+        for _ in range(n):
+            row('data', lambda j, s: cg.chord() if rng.random() < 0.2 else cg.note(dur_required=True))
+
+    def split(k):
+        rows.append({'kind': 'cells', 'rk': 'split', 'cells': [op_cell('*^') if j == k else dict(NULL_I) for j in range(len(live))], 'live': list(live)})
+        live.insert(k, live[k])
+
+    def join_all():
+        while True:
+            runs = []
+            j = 0
+            while j < len(live):
+                k = j
+                while k + 1 < len(live) and live[k + 1] == live[j]:
+                    k += 1
+                if k > j:
+                    runs.append((j, k))
+                j = k + 1
+            if not runs:
+                break
+            a, b = rng.choice(runs)
+            # a sub-run of length 2..(b-a+1)
+            m = rng.randint(2, b - a + 1)
+            st = rng.randint(a, b - m + 1)
+            rows.append({'kind': 'cells', 'rk': 'join', 'cells': [op_cell('*v') if st <= j < st + m else dict(NULL_I) for j in range(len(live))], 'live': list(live)})
+            del live[st + 1:st + m]
+            if rng.random() < 0.5:
+                data()
+    rows.append({'kind': 'cells', 'rk': 'header', 'cells': [{'k': 'header', 'text': h} for h in hs], 'live': list(live)})
+    row('interp', lambda j, s: {'k': 'other', 'kind': 'clef', 'text': rng.choice(CLEFS)})
+    if rng.random() < 0.7:
+        ks = cg.interp_cell('**kern', 'keysig')
+        row('interp', lambda j, s: dict(ks))
+    if rng.random() < 0.7:
+        ts = cg.interp_cell('**kern', 'timesig')
+        row('interp', lambda j, s: dict(ts))
+    number = 1
+    nm = rng.randint(3, 5)
+    special = rng.randrange(nm - 1)
+    plain = rng.randrange(nm)
+    for m in range(nm):
+        row('bar', lambda j, s, b=cg.bar(number): dict(b))
+        number += 1
+        data(rng.randint(1, 2))
+        if m == special:
+            k = rng.randrange(len(live))
+            split(k)
+            data()
+            if nest in ('first', 'both'):
+                split(k)
+                data()
+                if nest == 'both':
+                    split(k + 2)
+                    data()
+            elif nest == 'second':
+                split(k + 1)
+                data()
+            join_all()
+            data()
+        elif m == plain and rng.random() < 0.5:
+            k = rng.randrange(len(live))
+            split(k)
+            data()
+            join_all()
+    if rng.random() < 0.7:
+        row('bar', lambda j, s, b=cg.bar(None): dict(b))
+    rows.append({'kind': 'cells', 'rk': 'term', 'cells': [op_cell('*-') for _ in live], 'live': list(live)})
+    return {'headers': hs, 'rows': rows, 'profile': 'nested-split', 'nest': nest}
+
+
 def all_cells(doc):
     for row in doc['rows']:
         if row['kind'] == 'cells':
